@@ -62,9 +62,9 @@ TEXT = {
         "note": "Layer 1 (pure functions). miscreant is trusted as reference AEAD. Cookie fields shorter than 24 bytes (below the 28-byte minimum extension field) and response cookie lengths that are not a multiple of 4 are outside the generator (documented decoder/constructor limits, not this project's 124-byte cookies). Found and repaired P4 (1063f3c), P5 (8367138), P6 (2d1881a) and truncated-authenticator zero-extension (68dd72b).",
     },
     "C03": {
-        "technique": "model-based stateful property testing (rapid) of the real IPClient over loopback sockets against the harness's own protocol-conformant NTP server model (RFC 5905 + interleaved mode) with injected loss, duplication, stale and misdirected replies and a per-request changing server clock; oracle = half-RTT envelope around the model's true offset of exactly the exchange the result must describe, plus the literal |off-theta| <= rtd/2 bound from the client's evaluation log",
+        "technique": "model-based stateful property testing (rapid) of the real IPClient and SCIONClient over loopback sockets against the harness's own protocol-conformant NTP server model (RFC 5905 + interleaved mode) with injected loss, duplication, stale and misdirected replies and a per-request changing server clock; oracle = half-RTT envelope around the model's true offset of exactly the exchange the result must describe, plus the literal |off-theta| <= rtd/2 bound from the client's evaluation log",
         "level": "Generated search over exchange/fault sequences (up to ~1500 client calls quick). Exploration; timing is measured, not controlled, and schedules are those of the kernel and Go runtime plus injected delays.",
-        "note": "IP transport only so far in this check (the SCION transport is exercised in C13/C15 once built). Harness instants and kernel timestamps come from the same CLOCK_REALTIME, which must not be stepped during a run. The server model is the harness's own reading of the protocol.",
+        "note": "IP and SCION transports (SCION through a harness front that wraps the NTP server model). Harness instants and kernel timestamps come from the same CLOCK_REALTIME, which must not be stepped during a run. The server model is the harness's own reading of the protocol.",
     },
     "C09": {
         "technique": "exhaustive enumeration of the first header byte x datagram lengths x trailing-data kinds (incl. valid, bit-flipped and foreign-key NTS requests) plus rapid-generated headers, sent to the real IP listener over loopback; sentinel-delimited reply counting against a shouldReply predicate written from the statement",
@@ -95,5 +95,10 @@ TEXT = {
         "technique": "property-based testing with scripted randomness (crypto/rand.Reader replaced by rapid-drawn words): pointwise characterisation of RandIntn, validity of Sample via replay of its pick calls, exhaustive enumeration of all draw tuples for 0<=k<=n<=7 (exact uniformity over subsets); rapid state machine over multipath measurement rounds of the real SCION clients against per-path harness time servers",
         "level": "Generated search (10^5 RandIntn cases, 3*10^4 Sample cases, ~1500 measurement rounds quick) plus a complete enumeration of the small-size sample space. Exploration with an exhaustive sub-check.",
         "note": "Uniformity for large n is argued from the pointwise RandIntn characterisation (result = word mod n, only words <= 2^32 mod n rejected) plus the exhaustive small cases, not measured statistically. Duplicate fingerprints are not generated. Found and repaired: all-paths-failed round returned offset 0 without error (3b20f61).",
+    },
+    "C08": {
+        "technique": "structure-aware fuzzing with rapid generators against the real listeners and clients running in child processes: hostile datagram / byte-stream scripts (raw, mutated valid NTP/NTS/SCION/SCMP/CSPTP/NTS-KE inputs incl. authenticated odd-shaped NTS requests and correctly sealed hostile NTS replies), liveness oracle = child alive + sentinel request on the same socket pair answered (CSPTP: processed), with a reproduction protocol for hangs; every crash is shrunk by restarting the child",
+        "level": "Generated search: ~1500 listener scripts and ~700 client calls quick; tens of thousands thorough. Exploration: absence of a crashing input among those generated, not proof of robustness.",
+        "note": "'Never hangs' is checked as a bounded wait (a lost sentinel must reproduce twice on fresh children). QUIC/SCION key exchange and TLS handshake internals are not attacked. Native go-fuzz targets are not used (the structure-aware rapid generators reach the layer handling directly and shrink). Found and repaired: P9 (c410d10, 254e9a4, 0ef00ad, ebb9a99), P10 (34e00ca), NTS encode-buffer overflow (b35eaa0), CSPTP short datagram (4996ea0).",
     },
 }
